@@ -24,7 +24,8 @@ def urls_from_text(string):
 
     """
     for match in re.finditer(URL_IN_TEXT_RE, string):
-        url = match.group(0)
+        # NOTE: the pattern's unicode ranges include some whitespace characters
+        url = match.group(0).strip()
         s = match.start()
 
         if s > 0 and string[s - 1] == "[":
